@@ -450,4 +450,13 @@ func (group *Group) delIn() {
 	group.stat.VideoCodec = ""
 	group.stat.VideoWidth = 0
 	group.stat.VideoHeight = 0
+
+	// 同样的道理，已经挂在group上、还在等待上一个输入流的视频关键帧的订阅者，也按“输入流还没有推过视频”处理（和订阅者加入时的判断一致），
+	// 否则下一个同名输入流如果只有音频，这些订阅者将永远收不到数据
+	for session := range group.rtmpSubSessionSet {
+		session.ShouldWaitVideoKeyFrame = false
+	}
+	for session := range group.httpflvSubSessionSet {
+		session.ShouldWaitVideoKeyFrame = false
+	}
 }
